@@ -45,12 +45,19 @@ TrCompile ==
 
 Followed(r) == r \in DOMAIN regs /\ r \notin badr
 ProgOfEv == regs[Ev.rid].prog
+(* IterAmbig zone of a strict pattern (DESIGN Corrections/5, 9): the reference semantics and the engine's own  *)
+(* capture discipline (ApiOps!EngView) are both acceptable - and nothing else is                               *)
+DualZone(P, s) == ~P.lit /\ P.strict /\ P.iterambig /\ ~CaseUnspec(P, s) /\ ~GcUnspec(P, s) /\ Len(s) <= 8
 
 TrIsMatch ==
   /\ IsEv("is_match") /\ Consume /\ UNCHANGED <<badr, badi, obs>>
   /\ IF Faulty THEN Report(FaultKind, "is_match") /\ UNCHANGED avars
      ELSE IF ~Followed(Ev.rid) THEN Bump(4) /\ UNCHANGED avars
-     ELSE IF InputUnspec(ProgOfEv, Ev.s) THEN Bump(2) /\ UNCHANGED avars
+     ELSE IF InputUnspec(ProgOfEv, Ev.s) THEN
+          IF DualZone(ProgOfEv, Ev.s)
+          THEN LET a == OpIsMatch(ProgOfEv, Ev.s)  b == OpIsMatch(EngView(ProgOfEv), Ev.s) IN
+               Check(Ev.res = a \/ Ev.res = b, "m", a.v) /\ Bump(3) /\ UNCHANGED avars
+          ELSE Bump(2) /\ UNCHANGED avars
      ELSE AIsMatch(Ev.rid, Ev.s) /\ Check(Ev.res = last'.res, "m", last'.res.v)
 
 TrReplace ==
@@ -58,7 +65,12 @@ TrReplace ==
   /\ IF Faulty THEN Report(FaultKind, "replace_all") /\ UNCHANGED avars
      ELSE IF ~Followed(Ev.rid) THEN Bump(4) /\ UNCHANGED avars
      ELSE LET P == ProgOfEv  s == Ev.s  repl == Ev.repl IN
-       IF LangUnspec(P) THEN Bump(2) /\ UNCHANGED avars
+       IF DualZone(P, s) THEN
+            LET a == OpReplace(P, s, repl)  b == OpReplace(EngView(P), s, repl)
+                Acc(x) == IF x.k = "either" THEN (Ev.res.k = "ok" /\ Ev.res.v = s) \/ ErrIs("InvalidReplacementString")
+                          ELSE Ev.res = x
+            IN Check(Acc(a) \/ Acc(b), IF a.k = "err" \/ Ev.res.k = "err" THEN "replerr" ELSE "repl", a) /\ Bump(3) /\ UNCHANGED avars
+       ELSE IF LangUnspec(P) THEN Bump(2) /\ UNCHANGED avars
        ELSE IF P.nullable THEN Check(ErrIs("MatchesEmptyString"), "nullable", "err") /\ UNCHANGED avars
        ELSE IF ErrIs("MatchesEmptyString") THEN Report("nullable", "ok") /\ UNCHANGED avars
        ELSE IF InputUnspec(P, s) THEN Bump(2) /\ UNCHANGED avars
@@ -76,7 +88,8 @@ TrReplace ==
                ELSE Check(Ev.res = exp, IF exp.k = "err" \/ Ev.res.k = "err" THEN "replerr" ELSE "repl", exp)
 
 NewObs(kind, weak) == [rid |-> Ev.rid, kind |-> kind, s |-> Ev.s, pos |-> 1, prev |-> 1, n |-> 0,
-                       done |-> FALSE, weak |-> weak]
+                       done |-> FALSE, weak |-> weak, dual |-> FALSE]
+NewObsDual(kind) == [NewObs(kind, FALSE) EXCEPT !.dual = TRUE]
 TrOpen(kind) ==
   /\ IsEv(IF kind = "tok" THEN "tokenize" ELSE "analyze") /\ Consume /\ UNCHANGED badr
   /\ LET opened == Ev.res.k = "ok" IN
@@ -85,8 +98,15 @@ TrOpen(kind) ==
      THEN Bump(4) /\ UNCHANGED <<avars, obs>> /\ badi' = IF opened THEN badi \cup {Ev.res.it} ELSE badi
      ELSE LET P == ProgOfEv
               o == IF kind = "tok" THEN TokOpen(P, Ev.s) ELSE AnaOpen(P, Ev.s) IN
-       IF LangUnspec(P) THEN /\ Bump(2) /\ UNCHANGED <<avars, obs>>
-                             /\ badi' = IF opened THEN badi \cup {Ev.res.it} ELSE badi
+       IF LangUnspec(P) /\ DualZone(P, Ev.s) THEN
+            (* with a back-reference the two semantics may disagree about the matches themselves: the iterator is    *)
+            (* followed item by item against both drained sequences                                                 *)
+            LET o2 == IF kind = "tok" THEN TokOpen(EngView(P), Ev.s) ELSE AnaOpen(EngView(P), Ev.s) IN
+            /\ Check(((o.k = "ok") = opened \/ (o2.k = "ok") = opened) /\ (~opened => ErrIs("MatchesEmptyString")), "nullable", o.k)
+            /\ UNCHANGED <<avars, badi>>
+            /\ obs' = IF opened THEN (Ev.res.it :> NewObsDual(kind)) @@ obs ELSE obs
+       ELSE IF LangUnspec(P) THEN /\ Bump(2) /\ UNCHANGED <<avars, obs>>
+                                  /\ badi' = IF opened THEN badi \cup {Ev.res.it} ELSE badi
        ELSE /\ Check((o.k = "ok") = opened /\ (~opened => ErrIs("MatchesEmptyString")), "nullable", o.k)
             /\ IF opened /\ o.k = "ok" THEN
                   IF InputUnspec(P, Ev.s) THEN badi' = badi \cup {Ev.res.it} /\ UNCHANGED <<avars, obs>>
@@ -120,7 +140,14 @@ TrNext(kind) ==
        /\ obs' = [obs EXCEPT ![it].n = IF some THEN @ + 1 ELSE @, ![it].done = ~some,
                              ![it].pos = IF kind = "ana" THEN endpos ELSE @,
                              ![it].prev = IF ismatch THEN endpos ELSE @]
-       /\ IF O.weak THEN
+       /\ IF O.dual THEN
+            LET seqOf(Pv) == IF kind = "tok" THEN OpTokens(Pv, s) ELSE OpAnalyze(Pv, s)
+                item(Pv) == LET q == seqOf(Pv) IN
+                            IF q.k = "ok" /\ O.n + 1 <= Len(q.v) THEN [k |-> "some", v |-> q.v[O.n + 1]] ELSE [k |-> "none"]
+                a == item(P)  b == item(EngView(P))
+            IN /\ UNCHANGED <<avars, badi>> /\ Bump(3)
+               /\ Check(Ev.res = a \/ Ev.res = b, IF kind = "tok" THEN "tok" ELSE "anaflat", a)
+          ELSE IF O.weak THEN
             (* non-strict pattern: leftmost start and membership of the span in the match relation *)
             /\ UNCHANGED <<avars, badi>> /\ Bump(3)
             /\ IF ismatch THEN Check(/\ LeftmostStart(P.ast, P.ng, s, O.prev, P.F) = O.pos
@@ -135,7 +162,12 @@ TrNext(kind) ==
             IN
             /\ ANext(it)
             /\ LET exp == last'.res
+                   (* a group tree in the IterAmbig zone: the reference tree or the tree of the engine's discipline *)
+                   st2 == IF kind = "ana" /\ m # <<>> /\ DualZone(P, s) THEN AnaStep(EngView(P), s, iters[it].st) ELSE <<>>
+                   dual == st2 # <<>> /\ st2.m # <<>> /\ TreeDefinite(P, m) /\ TreeDefinite(P, st2.m)   \* (else: flat, as before)
+                   exp2 == IF dual THEN st2.res ELSE exp
                    same == IF full \/ exp.k # "some" \/ ~some THEN Ev.res = exp
+                           ELSE IF dual THEN Ev.res = exp \/ Ev.res = exp2
                            ELSE FlatEntry(Ev.res.v) = FlatEntry(exp.v)
                    kindOf == IF kind = "tok" THEN "tok"
                              ELSE IF exp.k = "some" /\ some /\ FlatEntry(Ev.res.v) = FlatEntry(exp.v) THEN "tree"
